@@ -73,7 +73,8 @@ LEVEL_TEXT = ("Machine-checked theorems (Coq 8.16, closed under the global conte
               "and the closed forms are theorems about parse_top(bin :: tokens): Count = min(n,255), Append = all "
               "occurrences in order with boundaries, Set = last occurrence / ArgumentConflict on a repeat without "
               "self-override, SetTrue/SetFalse truth value or opposite default, override removal in both orders of "
-              "appearance, defaults only for absent arguments.  The model "
+              "appearance, defaults only for absent arguments, and the modelled typed view (get_count = min(n,255) for all "
+              "n >= 0, get_flag = truth value / opposite default).  The model "
               "is tied to clap_builder by running the extracted model and the real crate on the same generated "
               "commands and argument vectors on every check (the concrete lines of the proofs' non-vacuity examples are "
               "corpus cases), and an independent python oracle (scan + fold by "
